@@ -31,6 +31,7 @@ ASSUMPTIONS = [
     'a duplicate of any attribute but MP_REACH/MP_UNREACH is discarded and the first occurrence kept (RFC 7606 3.g); a duplicate MP_REACH/MP_UNREACH is a session reset',
     'flag errors are judged on the Optional and Transitive bits only (RFC 7606 3.c)',
     'a missing mandatory attribute is not in this property\'s quantifier and is not generated',
+    'a declared length swallowing the start of the next attribute (overrun-mid) is only applied to attributes whose own length error is treat-as-withdraw: after an attribute-discard the shifted remainder may legitimately parse as anything',
     'an AS_PATH segment with a zero AS count is not generated: RFC 7606 7.2 calls it malformed, ExaBGP accepts it and its pinned test suite (test_update_empty_as_path_allowed, test_aspath_valid_sequence) requires that',
 ]
 
@@ -136,7 +137,12 @@ def build(plan: dict):
                 attrs.append([n, OPTIONAL_ADD[n], {}])
     target = name
     if target == '*':
-        target = rng.choice([a[0] for a in attrs] + ['med', 'communities'])
+        pool = [a[0] for a in attrs] + ['med', 'communities']
+        if corr == 'overrun-mid':
+            # a wrong length in the middle of the block shifts everything after it: only attributes whose own error is
+            # treat-as-withdraw make the expected outcome independent of what the shifted bytes happen to parse as
+            pool = [n for n in pool if n not in ('aggregator', 'atomic', 'as4_path', 'as4_aggregator') and not (n in ('local_pref', 'originator', 'cluster') and k['peer_as'] != 65001)]
+        target = rng.choice(pool)
     if target not in ('mp_reach', 'mp_unreach') and not any(a[0] == target for a in attrs):
         if target in ('originator', 'cluster') and k['peer_as'] != 65001:
             pass  # legal to receive from eBGP? RFC 4456 says ignore; it is still parsed
